@@ -168,10 +168,6 @@ def canon2 (params : List (List Nat)) (d1 d2 : Nat) : Nat × Nat :=
 
 /-! ### the `Perform` methods -/
 
-def performPrint (W : Nat → Option Nat) (cb : CbPolicy) (ws : WS) (c : Nat) : M WS :=
-  if c == 0xFFFD || (0x80 ≤ c && c < 0xA0) then emit cb (.unhandledChar c) ws
-  else ws.onScreen (fun s => s.text W c)
-
 def performExecute (cb : CbPolicy) (ws : WS) (b : Nat) : M WS :=
   match b with
   | 7 => emit cb .audibleBell ws
@@ -184,6 +180,11 @@ def performExecute (cb : CbPolicy) (ws : WS) (b : Nat) : M WS :=
   | 14 => pure ws
   | 15 => pure ws
   | _ => emit cb (.unhandledControl b) ws
+
+def performPrint (W : Nat → Option Nat) (cb : CbPolicy) (ws : WS) (c : Nat) : M WS :=
+  if 0x80 ≤ c && c < 0xA0 then performExecute cb ws c
+  else if c == 0xFFFD then emit cb (.unhandledChar c) ws
+  else ws.onScreen (fun s => s.text W c)
 
 def performEsc (cb : CbPolicy) (ws : WS) (ints : List Nat) (b : Nat) : M WS :=
   match ints with
